@@ -32,7 +32,7 @@ CONFIG = dict(
     runs={
         "quick": [dict(name="main", env={"VERIF_N": "1200"}, timeout=240),
                   dict(name="exh4", test="TestExhaustive", env={"VERIF_DEPTH": "4"}, timeout=240)],
-        "thorough": [dict(name="main", env={"VERIF_N": "20000", "VERIF_BIG": "80", "VERIF_SESS": "2000"}, timeout=1500),
+        "thorough": [dict(name="main", env={"VERIF_N": "20000", "VERIF_BIG": "80", "VERIF_SESS": "2000", "VERIF_RACE": "400"}, timeout=1500),
                      dict(name="seed2", env={"VERIF_N": "10000", "VERIF_BIG": "80", "VERIF_SESS": "1000"}, seed_offset=1000, timeout=1500),
                      dict(name="exh6", test="TestExhaustive", env={"VERIF_DEPTH": "6"}, timeout=1500)],
     },
@@ -41,7 +41,7 @@ CONFIG = dict(
          "channels (AllocTempChannel/FreeTempChannel), fronts f1,f2,f3, ids 1..7 plus 0 and 2^32-1; joins (a quarter of them duplicates of a "
          "listed id), leaves (two thirds aimed at the first/middle/last/random element of a real group, the rest at random incl. absent ids, "
          "missing groups and channels), broadcasts, create/fetch/delete, session add/remove, direct ClientSessions.PushMsg and sys.pushmsg with "
-         "live/unknown/duplicate ids, ~2% malformed lines; every case ends with a broadcast on each channel; corpus first; large-group cases (9 quick / 80 thorough per run): one group of 130-600 ids from a counter (a third with a run of duplicates) emptied from the newest end, the oldest end or at random through range ops, with a broadcast after every chunk and single steps around sizes 32/64/128/212; session-callback cases (60 / 2000): a recording ISessionsHandler whose OnSessionAdd pushes (ClientSessions.PushMsg) or joins+broadcasts (through the real push impl, in place) to lists naming the connection being added, and whose OnSessionRemove pushes to lists naming the one being removed; plus every history "
+         "live/unknown/duplicate ids, ~2% malformed lines; every case ends with a broadcast on each channel; corpus first; large-group cases (9 quick / 80 thorough per run): one group of 130-600 ids from a counter (a third with a run of duplicates) emptied from the newest end, the oldest end or at random through range ops, with a broadcast after every chunk and single steps around sizes 32/64/128/212; concurrent-membership cases (40 / 400): while a broadcast is in flight — after the channel took a front's id list, before the push layer reads it — another goroutine issues a leave (mostly of a middle member) or join on that same front; every front must receive the snapshot; session-callback cases (60 / 2000): a recording ISessionsHandler whose OnSessionAdd pushes (ClientSessions.PushMsg) or joins+broadcasts (through the real push impl, in place) to lists naming the connection being added, and whose OnSessionRemove pushes to lists naming the one being removed; plus every history "
          "of length <= 4 (quick) / 6 (thorough) over a 7-operation alphabet followed by a broadcast. A case is non-trivial when its observation "
          "is a value (channel identity, tuples, deliveries); distinct = distinct (op, observation) pairs",
     trusted_base=[
@@ -54,6 +54,9 @@ CONFIG = dict(
         "harness canonicalisation (channel objects numbered in order of first appearance, panics mapped to 'panic')",
     ],
     assumptions=[
+        "sync.Mutex gives mutual exclusion: the group lock held by Channel.PushMessage across the push call keeps a concurrent Leave/Add of that "
+        "front out until the tuple was consumed (the harness's sink starts that operation on another goroutine and gives it 1 ms before reading "
+        "the list; in the unchanged code it cannot run, so the observation does not depend on timing)",
         "one goroutine uses a channel service at a time (the code's own stated discipline; getGroup/AddChannel are Load-then-Store, not LoadOrStore)",
         "fewer than 2^32 sessions are allocated by one front-end (SerialIdService wrap is modelled but not reached by the harness)",
         "the push layer does not retain the id slice beyond the call (true for impls: serialized or iterated synchronously)",
